@@ -32,6 +32,11 @@ where
       let sctl_error = sctl.clone();
       let sctl_complete = sctl.clone();
 
+      if count == 0 {
+        sctl.sink_complete_force();
+        return;
+      }
+
       source.inner_subscribe(sctl.new_observer(
         move |serial, x| {
           let (emit, complete) = {
